@@ -25,6 +25,7 @@ def run(ctx, crate):
     rule_update_before_gate(ctx, crate)
     rule_paint_reads_live_state(ctx, crate)
     rule_limiter_state_private(ctx, crate)
+    rule_limiter_admission(ctx, crate)
 
 
 def rule_update_before_gate(ctx, crate, rule="R-UPDATE-BEFORE-GATE"):
@@ -118,3 +119,56 @@ def rule_limiter_state_private(ctx, crate, rule="R-LIMITER-STATE"):
         ctx.check(b.name == "draw_target::RateLimiter::new", rule, "construct", b.name, "%s:%d" % (b.file, s.get("line", 0)),
                   "RateLimiter built by RateLimiter::new", "RateLimiter built outside RateLimiter::new", cfg)
     ctx.floor(rule, n, 5, cfg, "limiter state writes")
+
+
+def rule_limiter_admission(ctx, crate, rule="R-LIMITER-ADMISSION"):
+    """Structural necessary conditions of the token-bucket law (not the law): in both allow() functions every
+    admission (`true`) is preceded on its path by (a) a store of the bucket's reference time `prev` derived
+    from `now` and (b) a store of `capacity` whose value passed through min(MAX_BURST, ..); every refusal
+    (`false`) changes nothing. An admission that leaves `prev` behind lets the same elapsed time be credited
+    again later; an uncapped capacity store lifts the burst bound."""
+    cfg = crate.config
+    n = 0
+    for fn, kind in ((r"draw_target::RateLimiter::allow", "field"), (r"state::AtomicPosition::allow", "atomic")):
+        b = K.find_one(ctx, crate, rule, fn)
+        if not b:
+            continue
+        now_p = [i for i in range(1, b.arg_count + 1) if "Instant" in b.locals[i]["ty"]]
+        trues = sorted({i for i, j, s in b.assigns() if s["lhs"]["l"] == 0 and not s["lhs"]["p"] and is_const(s["rv"].get("op"), True)})
+        falses = sorted({i for i, j, s in b.assigns() if s["lhs"]["l"] == 0 and not s["lhs"]["p"] and is_const(s["rv"].get("op"), False)})
+        ctx.floor(rule, len(trues), 1, cfg, "admission (`true`) sites in %s" % K.meth(fn.replace("::allow", "")))
+        prev_stores, cap_stores = [], []
+        if kind == "field":
+            for i, j, s in b.assigns():
+                fs = place_fields(s["lhs"])
+                if fs and fs[-1][2] == "prev":
+                    prev_stores.append((i, b.slice_rv(i, s)))
+                if fs and fs[-1][2] == "capacity":
+                    cap_stores.append((i, b.slice_rv(i, s)))
+        else:
+            for c in b.calls(r"portable_atomic::Atomic(U8|U64)::(store|swap)"):
+                r0 = b.slice_args(c, [0], through_calls=False)
+                if r0.has_field("prev"):
+                    prev_stores.append((c.bb, b.slice_args(c, [1])))
+                if r0.has_field("capacity"):
+                    cap_stores.append((c.bb, b.slice_args(c, [1])))
+        good_prev = [i for i, sl in prev_stores if set(now_p) & sl.params()]
+        good_cap = [i for i, sl in cap_stores if sl.has_call(r"std::cmp::Ord::min", r"core::cmp::Ord::min", r"std::cmp::min") and
+                    any(isinstance(c, int) and not isinstance(c, bool) and c in (10, 20) for c in sl.consts())]
+        for t in trues:
+            n += 1
+            wo_prev = t in b.reach([0], avoid=good_prev)
+            wo_cap = t in b.reach([0], avoid=good_cap)
+            ctx.check(not wo_prev, rule, "%s:admission-advances-prev" % K.meth(fn.replace("::allow", "")), b.name, K.fn_loc(b),
+                      "every admission stores a new reference time derived from `now`",
+                      "an admission path leaves `prev` untouched: the elapsed time is credited again at the next refill (more than burst + rate*T frames)", cfg)
+            ctx.check(not wo_cap, rule, "%s:admission-caps-capacity" % K.meth(fn.replace("::allow", "")), b.name, K.fn_loc(b),
+                      "every admission stores capacity through min(MAX_BURST, ..)",
+                      "an admission path updates/keeps capacity without the MAX_BURST cap (or without consuming a token)", cfg)
+        for f in falses:
+            n += 1
+            # nothing stored on a refusing path: the false-site is not reachable after any store
+            after_store = any(f in b.reach_after(i) or f == i for i, sl in prev_stores + cap_stores)
+            ctx.check(not after_store, rule, "%s:refusal-pure" % K.meth(fn.replace("::allow", "")), b.name, K.fn_loc(b),
+                      "a refused request leaves the bucket unchanged", "a refused request still modifies the bucket", cfg)
+    ctx.floor(rule, n, 6, cfg, "admission/refusal sites")
